@@ -11,6 +11,9 @@ for pf in $pd/*.diff; do
   n=$(basename $pf .diff)
   git -C $wt checkout -q -- src
   git -C $wt apply $pf || { echo "$n NOAPPLY"; continue; }
+  # every generated input from this patch's source (a check regenerates only the inputs it lists itself; without this a
+  # file generated under the previous patch can make an unrelated check fail: A08's NameTables broke C10/C11 under B02)
+  /venv/bin/python harness/translate.py --all > /dev/null 2>&1
   res=""
   for p in C01 C02 C03 C04 C05 C06 C07 C08 C09 C10 C11 C12 C13 C14 C15 C16 C17 C18 C19 C20; do
     ./check $p quick > $L/refac_${n}_$p.log 2>&1; rc=$?
@@ -19,3 +22,4 @@ for pf in $pd/*.diff; do
   echo "$n ->${res:- all green}"
 done
 git -C $wt checkout -q -- src
+/venv/bin/python harness/translate.py --all > /dev/null 2>&1
